@@ -33,7 +33,7 @@ ANCHORS = [("leuvenmapmatching/matcher/base.py", "BaseMatching.update"),
            ("leuvenmapmatching/matcher/distance.py", "DistanceMatcher.logprob_trans")]
 FLOORS = {"optimum_comparisons_nontrivial": 500, "early_stops": 50, "no_start_candidate": 30, "dp_vs_bruteforce": 20,
           "family:simple": 300, "family:simple_nodes": 300, "family:distance": 300, "tightened_cases": 300,
-          "paths_rescored_by_reference": 1000, "threshold_hit_exactly": 20, "reused_matcher_cases": 500, "debug_level_cases": 500}
+          "paths_rescored_by_reference": 1000, "threshold_hit_exactly": 20, "reused_matcher_cases": 500, "debug_level_cases": 500, "grown_map_cases": 300}
 ASSUMPTIONS = ["the distance/projection of an observation on a state is taken from the map's own primitive so that threshold decisions are "
                "bit-identical (those primitives are judged by C05/C13); everything else (states, successors, scores, stop rule, DP) is independent",
                "cases in which a normalised probability falls within 1e-9 relative of min_prob_norm (or exactly on it: the reference's own score formula "
@@ -51,6 +51,13 @@ def gen_case(rng, i, tier):
             j = rng.randrange(1, len(pre))
             pre[j] = [pre[j][0] + 9.0, pre[j][1] - 7.0]
         case["pre_trace"] = pre
+        case["pre_expand"] = rng.random() < 0.5   # the earlier trace is matched in two steps (prefix, then expand=True)
+        if rng.random() < 0.35:
+            # the map object grows after its first use: some roads are added (InMemMap.add_edge) only after the earlier trace
+            # was matched on it; the judged match uses the full graph
+            es = [e for e in case["map"]["edges"] if e[0] != e[1]]
+            if len(es) >= 3:
+                case["late_edges"] = [list(e) for e in rng.sample(es, rng.randint(1, min(3, len(es) - 1)))]
     # the optimum does not depend on the log level: a fraction of the cases runs with the package logger at DEBUG, where
     # candidates that fail a cut-off are kept in the lattice as stopped matchings
     case["debug"] = rng.random() < 0.15
@@ -62,7 +69,13 @@ def close(a, b):
 
 
 def run_real(case, fullscan=False):
-    mp = build.make_inmem(case["map"])
+    late = [tuple(e) for e in case.get("late_edges") or []]
+    if late:
+        m0 = dict(case["map"])
+        m0["edges"] = [e for e in case["map"]["edges"] if tuple(e) not in late]
+        mp = build.make_inmem(m0)
+    else:
+        mp = build.make_inmem(case["map"])
     if fullscan:
         mcase.patch_fullscan(mp)
     mt = build.make_matcher(mp, case["cfg"])
@@ -71,9 +84,18 @@ def run_real(case, fullscan=False):
     try:
         if case.get("pre_trace"):
             try:
-                mt.match(build.trace(case["pre_trace"]))
+                pre = build.trace(case["pre_trace"])
+                if case.get("pre_expand") and len(pre) >= 2:
+                    mt.match(pre[:max(1, len(pre) // 2)])
+                    mt.match(pre, expand=True)
+                else:
+                    mt.match(pre)
             except Exception:
                 pass
+        if late:
+            for a, b in late:
+                mp.add_edge(a, b)
+            mt = build.make_matcher(mp, case["cfg"])  # a new matcher on the same, grown map object
         res = mt.match(build.trace(case["trace"]))
     finally:
         env.logger.setLevel(logging.ERROR)
@@ -136,6 +158,8 @@ def check_case(ctx, case):
         ctx.count("tightened_cases")
     if case.get("debug"):
         ctx.count("debug_level_cases")
+    if case.get("late_edges"):
+        ctx.count("grown_map_cases")
     if case.get("pre_trace"):
         ctx.count("reused_matcher_cases")
         if mt.early_stop_idx is not None or True:
